@@ -447,9 +447,10 @@ impl Metadata {
                     Target::Directory { ref path } => {
                         out_base.join(path.join(src_relative.with_extension("sv")))
                     }
-                    Target::Bundle { .. } => out_base.join(
-                        PathBuf::from("target").join(src.with_extension("sv").file_name().unwrap()),
-                    ),
+                    // Keep the source-relative layout: two files with the same name in
+                    // different directories must not share a staging path.
+                    Target::Bundle { .. } => out_base
+                        .join(PathBuf::from("target").join(src_relative.with_extension("sv"))),
                 };
                 let map = match &self.build.sourcemap_target {
                     SourceMapTarget::Directory { path } => {
